@@ -131,8 +131,9 @@ static Outcome execute(const Scenario& sc, const Plan& plan, std::uint64_t sched
     std::vector<std::string> tail;
     out.st = sk::run(sched_seed, kn, [&] {
         sc.exec(plan, ctx);
-        if (trace) tail = sk::trace_tail(400);
     });
+    // the trace buffer survives until the next run starts, also when the kernel aborted this one
+    if (trace) tail = sk::trace_tail(getenv("VERIF_TRACE_LINES") ? static_cast<std::size_t>(atoi(getenv("VERIF_TRACE_LINES"))) : 400);
     if (!out.st.fatal.empty()) {
         // kernel-level abort: deadlock / livelock / self-deadlock. Always a violation candidate.
         std::string key = out.st.deadlock ? "kernel.deadlock" : (out.st.step_limit ? "kernel.step_limit" : "kernel.abort");
